@@ -5,4 +5,491 @@ Import ListNotations.
 Local Open Scope string_scope.
 Local Open Scope list_scope.
 
-Lemma placeholder_true : True. Proof. exact I. Qed.
+(* ------------------------------------------------------------------------------------------ generic *)
+
+Section comp_induction.
+  Variable P : comp -> Prop.
+  Hypothesis H : forall n imp used kids, Forall P kids -> P (Comp n imp used kids).
+  Fixpoint comp_ind' (c : comp) : P c :=
+    match c with
+    | Comp n imp used kids =>
+      H n imp used kids
+        ((fix go (l : list comp) : Forall P l :=
+            match l with
+            | [] => Forall_nil P
+            | k :: r => Forall_cons k (comp_ind' k) (go r)
+            end) kids)
+    end.
+End comp_induction.
+
+Lemma all_ok_inv {A X : Type} (P : X -> Prop) (step : X -> A -> res (bool * X)) (l : list A) :
+  (forall a, In a l -> forall x, P x -> exists b x', step x a = Ok (b, x') /\ P x') ->
+  forall x, P x -> exists b x', all_ok step l x = Ok (b, x') /\ P x'.
+Proof.
+  induction l as [|a r IH]; intros Hs x Hx; cbn [all_ok].
+  - exists true, x. split; [reflexivity | exact Hx].
+  - destruct (Hs a (or_introl eq_refl) x Hx) as (b & x' & E & Hx'). rewrite E.
+    destruct b.
+    + apply IH; [|exact Hx']. intros a' Ha'. apply Hs. right. exact Ha'.
+    + exists false, x'. split; [reflexivity | exact Hx'].
+Qed.
+
+Lemma walk_comp_inv (P : state -> Prop) (imp : state -> comp -> res (bool * state)) :
+  (forall st c, P st -> exists b st', imp st c = Ok (b, st') /\ P st') ->
+  forall c st, P st -> exists b st', walk_comp imp c st = Ok (b, st') /\ P st'.
+Proof.
+  intros Himp c. induction c as [n i used kids IHk] using comp_ind'. intros st Hst.
+  cbn [walk_comp].
+  destruct (negb (requires_imports (Comp n i used kids))).
+  - exists true, st. split; [reflexivity | exact Hst].
+  - destruct i as [p|].
+    + apply Himp. exact Hst.
+    + revert st Hst. induction kids as [|k r IHr]; intros st Hst.
+      * exists true, st. split; [reflexivity | exact Hst].
+      * inversion IHk as [|k' r' Hk Hr]; subst.
+        destruct (Hk st Hst) as (b & st' & E & Hst'). rewrite E.
+        destruct b.
+        -- apply IHr; assumption.
+        -- exists false, st'. split; [reflexivity | exact Hst'].
+Qed.
+
+(* ------------------------------------------------------------------------------------------ sparse lists *)
+
+(* every element differs from all elements two or more positions further on *)
+Fixpoint sparse (R : list string) : Prop :=
+  match R with
+  | [] => True
+  | a :: r => match r with [] => True | _ :: r' => ~ In a r' end /\ sparse r
+  end.
+
+Fixpoint evens {A : Type} (l : list A) : list A :=
+  match l with
+  | [] => []
+  | x :: r => x :: match r with [] => [] | _ :: r' => evens r' end
+  end.
+
+Lemma evens_props : forall n (l : list string), length l <= n ->
+  incl (evens l) l /\ length l <= 2 * length (evens l) /\ (sparse l -> NoDup (evens l)).
+Proof.
+  induction n as [|n IH]; intros l Hl.
+  - destruct l; [|cbn in Hl; lia]. cbn. repeat split; auto using incl_nil_l, NoDup_nil.
+  - destruct l as [|a [|b r]].
+    + cbn. repeat split; auto using incl_nil_l, NoDup_nil.
+    + cbn. repeat split; auto using incl_refl. intros _. constructor; [intros []|constructor].
+    + assert (Hr : length r <= n) by (cbn in Hl; lia).
+      destruct (IH r Hr) as (Hi & Hlen & Hnd).
+      change (evens (a :: b :: r)) with (a :: evens r).
+      repeat split.
+      * intros x [Hx|Hx]; [left; exact Hx | right; right; apply Hi; exact Hx].
+      * cbn [length]. lia.
+      * intros Hsp. destruct Hsp as [Ha Hsp]. constructor.
+        -- intros Hin. apply Ha. apply Hi. exact Hin.
+        -- apply Hnd. destruct Hsp as [_ Hsp]. exact Hsp.
+Qed.
+
+Lemma sparse_length : forall (l T : list string), sparse l -> incl l T -> length l <= 2 * length T.
+Proof.
+  intros l T Hs Hi.
+  destruct (evens_props (length l) l (le_n _)) as (Hie & Hlen & Hnd).
+  assert (length (evens l) <= length T).
+  { apply NoDup_incl_length; [apply Hnd; exact Hs|]. intros x Hx. apply Hi. apply Hie. exact Hx. }
+  lia.
+Qed.
+
+(* ------------------------------------------------------------------------------------------ state lemmas *)
+
+Definition lib_keys (st : state) : list string := map fst (lib st).
+
+Lemma lib_get_in : forall l k m, lib_get l k = Some m -> In k (map fst l).
+Proof.
+  induction l as [|[k' m'] r IH]; intros k m E; cbn in *; [discriminate|].
+  destruct (String.eqb k' k) eqn:Ek.
+  - left. apply String.eqb_eq. exact Ek.
+  - right. eapply IH. exact E.
+Qed.
+
+Lemma fs_get_in : forall fs k, fs_get fs k <> Missing -> In k (map fst fs).
+Proof.
+  induction fs as [|[k' d] r IH]; intros k E; cbn in *; [congruence|].
+  destruct (String.eqb k' k) eqn:Ek.
+  - left. apply String.eqb_eq. exact Ek.
+  - right. apply IH. exact E.
+Qed.
+
+(* what a successful / failed fetchImportSource does to the state *)
+Lemma fis_ok : forall strict fs st o sid url st1 errs sm,
+  fetch_import_source strict fs st o sid url = FMok st1 errs sm ->
+  lib_get (lib st1) (mk_key url) = Some sm /\
+  issues_rev st1 = issues_rev st /\
+  (lib st1 = lib st \/ (lib st1 = (mk_key url, sm) :: lib st /\ fs_get fs (mk_key url) = Parsed errs sm
+                        /\ lib_get (lib st) (mk_key url) = None)).
+Proof.
+  intros strict fs st o sid url st1 errs sm. unfold fetch_import_source, linked_model.
+  destruct (has_link st o sid) eqn:Hl.
+  - destruct (lib_get (lib st) (mk_key url)) eqn:Hg.
+    + intros E. inversion E; subst. auto.
+    + unfold fetch_model. rewrite Hg. destruct (fs_get fs (mk_key url)) eqn:Hf; intros E; inversion E; subst.
+      cbn. rewrite String.eqb_refl. split; [reflexivity|]. split; [reflexivity|]. right. auto.
+  - unfold fetch_model. destruct (lib_get (lib st) (mk_key url)) eqn:Hg.
+    + intros E. inversion E; subst. cbn. auto.
+    + destruct (fs_get fs (mk_key url)) eqn:Hf; intros E; inversion E; subst.
+      cbn. rewrite String.eqb_refl. split; [reflexivity|]. split; [reflexivity|]. right. auto.
+Qed.
+
+Lemma fis_fail : forall strict fs st o sid url st1,
+  fetch_import_source strict fs st o sid url = FMfail st1 ->
+  lib st1 = lib st /\ links st1 = links st /\
+  exists r, issues_rev st1 = {| i_rule := r; i_item := ItImport o url |} :: issues_rev st.
+Proof.
+  intros strict fs st o sid url st1. unfold fetch_import_source.
+  destruct (linked_model st o sid url); [discriminate|].
+  unfold fetch_model. destruct (lib_get (lib st) (mk_key url)); [discriminate|].
+  destruct (fs_get fs (mk_key url)); intros E; inversion E; subst; cbn; eauto.
+Qed.
+
+Lemma check_cycle_false_notin : forall st m0 hist h,
+  check_cycle st m0 hist h = false -> ~ In (e_dst h) (map e_src hist).
+Proof.
+  intros st m0 hist h E Hin. apply in_map_iff in Hin. destruct Hin as (e & He & Hin).
+  unfold check_cycle in E.
+  assert (X : existsb (fun e0 => String.eqb (e_dst h) (e_src e0)
+       || (String.eqb (e_src e0) origin_ref &&
+           match content st m0 (e_srcm e0), e_dstm h with
+           | Some a, Some k => match lib_get (lib st) k with Some b => model_equals a b | None => false end
+           | _, _ => false
+           end)) hist = true).
+  { apply existsb_exists. exists e. split; [exact Hin|]. rewrite He. rewrite String.eqb_refl. reflexivity. }
+  rewrite X in E. discriminate.
+Qed.
+
+(* ------------------------------------------------------------------------------------------ termination *)
+
+(* sources of the history, newest first, headed by the URL of the model the current entity lives in *)
+Definition srcs_rev (o : owner) (hist : list epoch) : list string := model_url o :: rev (map e_src hist).
+
+Lemma srcs_rev_push : forall o hist url,
+  srcs_rev (Some (mk_key url)) (hist ++ [fetch_epoch o url]) = mk_key url :: srcs_rev o hist.
+Proof.
+  intros. unfold srcs_rev. rewrite map_app, rev_app_distr. reflexivity.
+Qed.
+
+Section Total.
+  Variable K : list string.          (* every key that can ever be in the library *)
+  Variable fs : fsys.
+  Variable strict : bool.
+  Variable m0 : model.
+  Hypothesis HfsK : incl (map fst fs) K.
+
+  Definition good (st : state) : Prop := incl (lib_keys st) K.
+  Definition hinv (o : owner) (hist : list epoch) : Prop :=
+    sparse (srcs_rev o hist) /\ incl (srcs_rev o hist) (origin_ref :: K).
+
+  Lemma hinv_length : forall o hist, hinv o hist -> length hist <= 2 * length K + 1.
+  Proof.
+    intros o hist [Hs Hi]. pose proof (sparse_length _ _ Hs Hi) as L.
+    unfold srcs_rev in L. cbn [length] in L. rewrite rev_length, map_length in L. lia.
+  Qed.
+
+  Lemma fis_ok_good : forall st o sid url st1 errs sm,
+    good st -> fetch_import_source strict fs st o sid url = FMok st1 errs sm ->
+    good st1 /\ In (mk_key url) K.
+  Proof.
+    intros st o sid url st1 errs sm Hg E. destruct (fis_ok _ _ _ _ _ _ _ _ _ E) as (Hget & _ & Hl).
+    assert (Hk : In (mk_key url) K).
+    { destruct Hl as [Hl|(Hl & Hf & _)].
+      - apply Hg. unfold lib_keys. rewrite <- Hl. eapply lib_get_in. exact Hget.
+      - apply HfsK. apply fs_get_in. rewrite Hf. discriminate. }
+    split; [|exact Hk].
+    destruct Hl as [Hl|(Hl & _)]; unfold good, lib_keys in *; rewrite Hl; [exact Hg|].
+    cbn. intros x [Hx|Hx]; [subst; exact Hk | apply Hg; exact Hx].
+  Qed.
+
+  Lemma hinv_push : forall st o hist url,
+    hinv o hist -> In (mk_key url) K ->
+    check_cycle st m0 hist (fetch_epoch o url) = false ->
+    hinv (Some (mk_key url)) (hist ++ [fetch_epoch o url]).
+  Proof.
+    intros st o hist url [Hs Hi] Hk Hc. unfold hinv. rewrite srcs_rev_push. split.
+    - cbn [sparse]. split; [|exact Hs]. unfold srcs_rev. intros Hin. apply in_rev in Hin.
+      apply (check_cycle_false_notin _ _ _ _ Hc). exact Hin.
+    - intros x [Hx|Hx]; [subst; right; exact Hk | apply Hi; exact Hx].
+  Qed.
+
+  Definition total_at (f : state -> owner -> list epoch -> units -> res (bool * state)) (n : nat) : Prop :=
+    forall st o hist u, good st -> hinv o hist -> 2 * length K + 3 <= n + length hist ->
+                        exists b st', f st o hist u = Ok (b, st') /\ good st'.
+
+  Lemma fetch_units_total : forall fuel, total_at (fetch_units fuel strict fs m0) fuel.
+  Proof.
+    induction fuel as [|f IH]; intros st o hist u Hg Hh Hfuel.
+    - destruct u as [n refs|n sid url ref]; cbn [fetch_units]; [eauto|].
+      pose proof (hinv_length _ _ Hh). lia.
+    - destruct u as [n refs|n sid url ref]; cbn [fetch_units]; [eauto|].
+      unfold fetch_units_body.
+      destruct (fetch_import_source strict fs st o sid url) as [st1|st1 errs sm] eqn:Efis.
+      + destruct (fis_fail _ _ _ _ _ _ _ Efis) as (Hl & _). exists false, st1. split; [reflexivity|].
+        unfold good, lib_keys. rewrite Hl. exact Hg.
+      + destruct (fis_ok_good _ _ _ _ _ _ _ Hg Efis) as (Hg1 & Hk).
+        destruct (existsb (related_units ref) errs); [eauto|].
+        destruct (check_cycle st1 m0 hist (fetch_epoch o url)) eqn:Ec; [eauto|].
+        destruct (find_units (m_units sm) ref) as [su|]; [|eauto].
+        pose proof (hinv_push _ _ _ _ Hh Hk Ec) as Hh'.
+        assert (Hf' : 2 * length K + 3 <= f + length (hist ++ [fetch_epoch o url])).
+        { rewrite app_length. cbn [length]. lia. }
+        destruct (IH st1 _ _ su Hg1 Hh' Hf') as (b & st2 & E2 & Hg2). rewrite E2.
+        destruct b; [|eauto].
+        apply all_ok_inv with (P := good); [|exact Hg2].
+        intros r _ x Hx. destruct (is_std r); [eauto|].
+        destruct (find_units (m_units sm) r) as [cu|]; [|eauto].
+        apply IH; assumption.
+  Qed.
+
+  Lemma fetch_comp_total : forall fuel st o hist c,
+    good st -> hinv o hist -> 2 * length K + 3 <= fuel + length hist ->
+    exists b st', fetch_comp fuel strict fs m0 st o hist c = Ok (b, st') /\ good st'.
+  Proof.
+    induction fuel as [|f IH]; intros st o hist c Hg Hh Hfuel.
+    - pose proof (hinv_length _ _ Hh). lia.
+    - cbn [fetch_comp]. apply walk_comp_inv with (P := good); [|exact Hg].
+      clear st Hg c. intros st c Hg.
+      destruct c as [name [[[sid url] ref]|] used kids]; [|eauto].
+      unfold fetch_comp_body.
+      destruct (fetch_import_source strict fs st o sid url) as [st1|st1 errs sm] eqn:Efis.
+      + destruct (fis_fail _ _ _ _ _ _ _ Efis) as (Hl & _). exists false, st1. split; [reflexivity|].
+        unfold good, lib_keys. rewrite Hl. exact Hg.
+      + destruct (fis_ok_good _ _ _ _ _ _ _ Hg Efis) as (Hg1 & Hk).
+        destruct (existsb (related_comp (find_comp (m_comps sm) ref)) errs); [eauto|].
+        destruct (check_cycle st1 m0 hist (fetch_epoch o url)) eqn:Ec; [eauto|].
+        destruct (find_comp (m_comps sm) ref) as [sc|]; [|eauto].
+        pose proof (hinv_push _ _ _ _ Hh Hk Ec) as Hh'.
+        assert (Hf' : 2 * length K + 3 <= f + length (hist ++ [fetch_epoch o url])).
+        { rewrite app_length. cbn [length]. lia. }
+        destruct (IH st1 _ _ sc Hg1 Hh' Hf') as (b & st2 & E2 & Hg2). rewrite E2.
+        destruct b; [|eauto].
+        destruct (all_ok_inv good (fun st k => fetch_comp f strict fs m0 st (Some (mk_key url))
+                                                          (hist ++ [fetch_epoch o url]) k) (ckids sc)) with (x := st2)
+          as (b3 & st3 & E3 & Hg3); [|exact Hg2|].
+        { intros k _ x Hx. apply IH; assumption. }
+        rewrite E3. destruct b3; [|eauto].
+        apply all_ok_inv with (P := good); [|exact Hg3].
+        intros n _ x Hx. destruct (is_std n); [eauto|].
+        destruct (find_units (m_units sm) n) as [su|]; [|eauto].
+        apply fetch_units_total; assumption.
+  Qed.
+
+  Lemma resolve_loop_total {A : Type} (fetch : state -> A -> res (bool * state)) (item : A -> iitem) :
+    (forall st a, good st -> exists b st', fetch st a = Ok (b, st') /\ good st') ->
+    forall l acc st, good st -> exists b st', resolve_loop fetch item l acc st = Ok (b, st') /\ good st'.
+  Proof.
+    intros Hf. induction l as [|a r IH]; intros acc st Hg; cbn [resolve_loop]; [eauto|].
+    destruct (Hf st a Hg) as (b & st' & E & Hg'). rewrite E. destruct b.
+    - apply IH. exact Hg'.
+    - apply IH. unfold good, lib_keys, retarget_last in *. destruct (issues_rev st'); exact Hg'.
+  Qed.
+End Total.
+
+Lemma hinv_start : forall K, hinv K None [].
+Proof.
+  intros K. unfold hinv, srcs_rev. cbn. split; [auto|]. intros x [Hx|[]]. left. exact Hx.
+Qed.
+
+(* resolveImports returns on every file system and from every importer state, cyclic import graphs included *)
+Lemma resolve_terminates : forall strict fs st m0 fuel,
+  fuel_bound fs st <= fuel ->
+  exists b st', resolve_imports fuel strict fs st m0 = Ok (b, st').
+Proof.
+  intros strict fs st m0 fuel Hfuel. unfold resolve_imports.
+  set (K := map fst fs ++ lib_keys st).
+  assert (HfsK : incl (map fst fs) K) by (apply incl_appl, incl_refl).
+  assert (Hg0 : good K (clear_origin_links (clear_issues st))).
+  { unfold good, lib_keys. cbn. apply incl_appr, incl_refl. }
+  assert (HK : 2 * length K + 3 <= fuel + 0).
+  { unfold K, fuel_bound, lib_keys in *. rewrite app_length, !map_length. lia. }
+  destruct (resolve_loop_total K (fun st u => fetch_units fuel strict fs m0 st None [] u)
+                               (fun u => ItUnits None (uname u))) with (l := imported_units m0) (acc := true)
+                               (st := clear_origin_links (clear_issues st)) as (b1 & st1 & E1 & Hg1).
+  { intros st' u Hg. apply (fetch_units_total K fs strict m0 HfsK fuel); [exact Hg|apply hinv_start|exact HK]. }
+  { exact Hg0. }
+  rewrite E1.
+  destruct (resolve_loop_total K (fun st c => fetch_comp fuel strict fs m0 st None [] c)
+                               (fun c => ItComp None (cname c))) with (l := imported_comps m0) (acc := b1)
+                               (st := st1) as (b2 & st2 & E2 & Hg2).
+  { intros st' c Hg. apply (fetch_comp_total K fs strict m0 HfsK fuel); [exact Hg|apply hinv_start|exact HK]. }
+  { exact Hg1. }
+  eauto.
+Qed.
+
+(* ------------------------------------------------------------------------------------------ failure => issue *)
+
+(* st' has the issues of st plus new ones on top; at least one new one when the answer is false *)
+Definition ext (st st' : state) (b : bool) : Prop :=
+  exists l, issues_rev st' = l ++ issues_rev st /\ (b = false -> l <> []).
+
+Lemma ext_refl_true : forall st, ext st st true.
+Proof. intros st. exists []. split; [reflexivity | discriminate]. Qed.
+
+Lemma ext_add_issue : forall st r it b, ext st (add_issue st r it) b.
+Proof. intros. exists [{| i_rule := r; i_item := it |}]. split; [reflexivity | discriminate]. Qed.
+
+Lemma ext_trans : forall st1 st2 st3 b, ext st1 st2 true -> ext st2 st3 b -> ext st1 st3 b.
+Proof.
+  intros st1 st2 st3 b (l1 & E1 & _) (l2 & E2 & H2). exists (l2 ++ l1). split.
+  - rewrite E2, E1, app_assoc. reflexivity.
+  - intros Hb Habs. apply app_eq_nil in Habs. destruct Habs as [Habs _]. exact (H2 Hb Habs).
+Qed.
+
+Lemma ext_same_issues : forall st st1 st2 b, issues_rev st1 = issues_rev st -> ext st1 st2 b -> ext st st2 b.
+Proof. intros st st1 st2 b E (l & E2 & H). exists l. rewrite <- E. auto. Qed.
+
+Lemma all_ok_ext {A : Type} (step : state -> A -> res (bool * state)) (l : list A) :
+  (forall a x b x', In a l -> step x a = Ok (b, x') -> ext x x' b) ->
+  forall x b x', all_ok step l x = Ok (b, x') -> ext x x' b.
+Proof.
+  induction l as [|a r IH]; intros Hs x b x' E; cbn [all_ok] in E.
+  - inversion E; subst. apply ext_refl_true.
+  - destruct (step x a) as [[b1 x1]| |] eqn:E1; try discriminate.
+    pose proof (Hs a x b1 x1 (or_introl eq_refl) E1) as H1.
+    destruct b1.
+    + eapply ext_trans; [exact H1|]. apply IH; [|exact E]. intros a' y b' y' Ha'. apply Hs. right. exact Ha'.
+    + inversion E; subst. exact H1.
+Qed.
+
+Lemma walk_comp_ext (imp : state -> comp -> res (bool * state)) :
+  (forall st c b st', imp st c = Ok (b, st') -> ext st st' b) ->
+  forall c st b st', walk_comp imp c st = Ok (b, st') -> ext st st' b.
+Proof.
+  intros Himp c. induction c as [n i used kids IHk] using comp_ind'. intros st b st' E.
+  cbn [walk_comp] in E.
+  destruct (negb (requires_imports (Comp n i used kids))).
+  - inversion E; subst. apply ext_refl_true.
+  - destruct i as [p|].
+    + eapply Himp. exact E.
+    + revert st E. induction kids as [|k r IHr]; intros st E.
+      * inversion E; subst. apply ext_refl_true.
+      * inversion IHk as [|k' r' Hk Hr]; subst.
+        destruct (walk_comp imp k st) as [[b1 st1]| |] eqn:E1; try discriminate.
+        pose proof (Hk _ _ _ E1) as H1. destruct b1.
+        -- eapply ext_trans; [exact H1|]. apply IHr; assumption.
+        -- inversion E; subst. exact H1.
+Qed.
+
+Lemma fis_fail_ext : forall strict fs st o sid url st1,
+  fetch_import_source strict fs st o sid url = FMfail st1 -> ext st st1 false.
+Proof.
+  intros strict fs st o sid url st1 E. destruct (fis_fail _ _ _ _ _ _ _ E) as (_ & _ & r & Hi).
+  eexists [_]. split; [exact Hi | discriminate].
+Qed.
+
+Lemma fetch_units_ext : forall fuel strict fs m0 st o hist u b st',
+  fetch_units fuel strict fs m0 st o hist u = Ok (b, st') -> ext st st' b.
+Proof.
+  induction fuel as [|f IH]; intros strict fs m0 st o hist u b st' E;
+    destruct u as [n refs|n sid url ref]; cbn [fetch_units] in E;
+    try (inversion E; subst; apply ext_refl_true); try discriminate.
+  unfold fetch_units_body in E.
+  destruct (fetch_import_source strict fs st o sid url) as [st1|st1 errs sm] eqn:Efis.
+  - inversion E; subst. eapply fis_fail_ext. exact Efis.
+  - destruct (fis_ok _ _ _ _ _ _ _ _ _ Efis) as (_ & Hi & _).
+    apply (ext_same_issues st st1 st' b Hi).
+    destruct (existsb (related_units ref) errs); [inversion E; subst; apply ext_add_issue|].
+    destruct (check_cycle st1 m0 hist (fetch_epoch o url)); [inversion E; subst; apply ext_add_issue|].
+    destruct (find_units (m_units sm) ref) as [su|]; [|inversion E; subst; apply ext_add_issue].
+    destruct (fetch_units f strict fs m0 st1 (Some (mk_key url)) (hist ++ [fetch_epoch o url]) su)
+      as [[b2 st2]| |] eqn:E2; try discriminate.
+    pose proof (IH _ _ _ _ _ _ _ _ _ E2) as H2. destruct b2.
+    + eapply ext_trans; [exact H2|]. eapply all_ok_ext; [|exact E].
+      intros r x b' x' _ Es. cbv beta in Es. destruct (is_std r); [inversion Es; subst; apply ext_refl_true|].
+      destruct (find_units (m_units sm) r); [|inversion Es; subst; apply ext_add_issue].
+      eapply IH. exact Es.
+    + inversion E; subst. exact H2.
+Qed.
+
+Lemma fetch_comp_ext : forall fuel strict fs m0 st o hist c b st',
+  fetch_comp fuel strict fs m0 st o hist c = Ok (b, st') -> ext st st' b.
+Proof.
+  induction fuel as [|f IH]; intros strict fs m0 st o hist c b st' E; cbn [fetch_comp] in E; [discriminate|].
+  eapply walk_comp_ext; [|exact E]. clear st c b st' E.
+  intros st c b st' E.
+  destruct c as [name [[[sid url] ref]|] used kids]; [|inversion E; subst; apply ext_refl_true].
+  unfold fetch_comp_body in E.
+  destruct (fetch_import_source strict fs st o sid url) as [st1|st1 errs sm] eqn:Efis.
+  - inversion E; subst. eapply fis_fail_ext. exact Efis.
+  - destruct (fis_ok _ _ _ _ _ _ _ _ _ Efis) as (_ & Hi & _).
+    apply (ext_same_issues st st1 st' b Hi).
+    destruct (existsb (related_comp (find_comp (m_comps sm) ref)) errs); [inversion E; subst; apply ext_add_issue|].
+    destruct (check_cycle st1 m0 hist (fetch_epoch o url)); [inversion E; subst; apply ext_add_issue|].
+    destruct (find_comp (m_comps sm) ref) as [sc|]; [|inversion E; subst; apply ext_add_issue].
+    destruct (fetch_comp f strict fs m0 st1 (Some (mk_key url)) (hist ++ [fetch_epoch o url]) sc)
+      as [[b2 st2]| |] eqn:E2; try discriminate.
+    pose proof (IH _ _ _ _ _ _ _ _ _ E2) as H2. destruct b2; [|inversion E; subst; exact H2].
+    eapply ext_trans; [exact H2|].
+    destruct (all_ok (fun st k => fetch_comp f strict fs m0 st (Some (mk_key url)) (hist ++ [fetch_epoch o url]) k)
+                     (ckids sc) st2) as [[b3 st3]| |] eqn:E3; try discriminate.
+    assert (H3 : ext st2 st3 b3).
+    { eapply all_ok_ext; [|exact E3]. intros k x b' x' _ Es. cbv beta in Es. eapply IH. exact Es. }
+    destruct b3; [|inversion E; subst; exact H3].
+    eapply ext_trans; [exact H3|]. eapply all_ok_ext; [|exact E].
+    intros n x b' x' _ Es. cbv beta in Es. destruct (is_std n); [inversion Es; subst; apply ext_refl_true|].
+    destruct (find_units (m_units sm) n); [|inversion Es; subst; apply ext_add_issue].
+    eapply fetch_units_ext. exact Es.
+Qed.
+
+(* the loops of resolveImports: old issues stay, and every failing entity gets an issue attached to it *)
+Lemma resolve_loop_issue {A : Type} (fetch : state -> A -> res (bool * state)) (item : A -> iitem) :
+  (forall st a b st', fetch st a = Ok (b, st') -> ext st st' b) ->
+  forall l acc st b st', resolve_loop fetch item l acc st = Ok (b, st') ->
+    (forall i, In i (issues_rev st) -> In i (issues_rev st')) /\
+    (b = false -> acc = false \/
+                  exists a st1 st2 i, In a l /\ fetch st1 a = Ok (false, st2) /\
+                                      In i (issues_rev st') /\ i_item i = item a).
+Proof.
+  intros Hf. induction l as [|a r IH]; intros acc st b st' E; cbn [resolve_loop] in E.
+  - inversion E; subst. split; [auto|]. intros ->. left. reflexivity.
+  - destruct (fetch st a) as [[b1 st1]| |] eqn:E1; try discriminate.
+    destruct (Hf _ _ _ _ E1) as (l1 & El1 & Hne). destruct b1.
+    + destruct (IH _ _ _ _ E) as (Hkeep & Hfalse). split.
+      * intros i Hi. apply Hkeep. rewrite El1. apply in_or_app. right. exact Hi.
+      * intros Hb. destruct (Hfalse Hb) as [Hacc|(a' & s1 & s2 & i & Ha' & Hfa & Hi & Hit)]; [left; exact Hacc|].
+        right. exists a', s1, s2, i. repeat split; auto. right. exact Ha'.
+    + destruct (IH _ _ _ _ E) as (Hkeep & _).
+      destruct l1 as [|i1 l1']; [exfalso; apply Hne; reflexivity|].
+      assert (Hrt : issues_rev (retarget_last st1 (item a))
+                    = {| i_rule := i_rule i1; i_item := item a |} :: l1' ++ issues_rev st).
+      { unfold retarget_last. rewrite El1. reflexivity. }
+      split.
+      * intros i Hi. apply Hkeep. rewrite Hrt. right. apply in_or_app. right. exact Hi.
+      * intros _. right. exists a, st, st1, {| i_rule := i_rule i1; i_item := item a |}.
+        repeat split; auto.
+        -- left. reflexivity.
+        -- apply Hkeep. rewrite Hrt. left. reflexivity.
+Qed.
+
+(* resolveImports = false => at least one issue, attached to a top-level importing entity whose fetch failed *)
+Lemma resolve_false_issue : forall fuel strict fs st m0 st',
+  resolve_imports fuel strict fs st m0 = Ok (false, st') ->
+  issues_rev st' <> [] /\
+  exists i, In i (issues_rev st') /\
+    ((exists u s1 s2, In u (imported_units m0) /\ i_item i = ItUnits None (uname u) /\
+                      fetch_units fuel strict fs m0 s1 None [] u = Ok (false, s2))
+     \/ (exists c s1 s2, In c (imported_comps m0) /\ i_item i = ItComp None (cname c) /\
+                         fetch_comp fuel strict fs m0 s1 None [] c = Ok (false, s2))).
+Proof.
+  intros fuel strict fs st m0 st' E. unfold resolve_imports in E.
+  destruct (resolve_loop (fun st u => fetch_units fuel strict fs m0 st None [] u) (fun u => ItUnits None (uname u))
+                         (imported_units m0) true (clear_origin_links (clear_issues st)))
+    as [[b1 st1]| |] eqn:E1; try discriminate.
+  destruct (resolve_loop_issue _ _ (fun st a b st' => fetch_units_ext fuel strict fs m0 st None [] a b st') _ _ _ _ _ E1)
+    as (_ & H1).
+  destruct (resolve_loop_issue _ _ (fun st a b st' => fetch_comp_ext fuel strict fs m0 st None [] a b st') _ _ _ _ _ E)
+    as (Hkeep & H2).
+  assert (X : exists i, In i (issues_rev st') /\
+    ((exists u s1 s2, In u (imported_units m0) /\ i_item i = ItUnits None (uname u) /\
+                      fetch_units fuel strict fs m0 s1 None [] u = Ok (false, s2))
+     \/ (exists c s1 s2, In c (imported_comps m0) /\ i_item i = ItComp None (cname c) /\
+                         fetch_comp fuel strict fs m0 s1 None [] c = Ok (false, s2)))).
+  { destruct (H2 eq_refl) as [Hb1|(c & s1 & s2 & i & Hc & Hfc & Hi & Hit)].
+    - subst b1. destruct (H1 eq_refl) as [Habs|(u & s1 & s2 & i & Hu & Hfu & Hi & Hit)]; [discriminate|].
+      exists i. split; [apply Hkeep; exact Hi|]. left. exists u, s1, s2. auto.
+    - exists i. split; [exact Hi|]. right. exists c, s1, s2. auto. }
+  split; [|exact X]. destruct X as (i & Hi & _). intros Hnil. rewrite Hnil in Hi. exact Hi.
+Qed.
